@@ -81,6 +81,7 @@ def run_and_inspect(case, inspect, factory=default_factory, prepare=None, extra=
                   yield_clock=cfg.get('yield_clock', True), keep_log=cfg.get('keep_log', False),
                   dircollide=cfg.get('dircollide', False), post_stmt_yield=cfg.get('post_stmt_yield', False))
     sim = world.sim
+    sim.timer_race_p = cfg.get('timer_race_p', 0.0)
     dc = world.dc
     out = {'violations': [], 'incident': None}
     try:
